@@ -20,6 +20,7 @@ Lingua's line base (0/1) is not assumed: it is calibrated per worker by running
 Lingua's own Python extractor on an ordinary .py source.
 """
 
+import collections
 import contextlib
 import io
 import itertools
@@ -180,6 +181,14 @@ def build(al, layout, parts, n=""):
         else:  # line break(s) between the '|' and the filter
             main = "${x |" + "\n" * j + " " + f + "(" + py_br(0, parts) + ")}"
             filtoff = j
+    elif kind == "filtx":
+        # style "b<n>a<n>t<n>[h]": line breaks before the '|', between the '|' and the filter list, between the
+        # filter list and the closing brace; j line breaks inside the list (or, style h, inside the expression)
+        b, a, t = int(style[1]), int(style[3]), int(style[5])
+        if style.endswith("h"):
+            main = "${" + py_br(j, parts) + "\n" * b + " |" + "\n" * a + " h" + "\n" * t + "}"
+        else:
+            main = "${" + (n and "EXPR" + n or "x") + "\n" * b + " |" + "\n" * a + " " + f + "(" + py_br(j, parts) + ")" + "\n" * t + "}"
     elif kind in ("if", "elif", "for", "while"):
         c = py_ctl(j, parts)
         inline_after = False
@@ -757,6 +766,8 @@ BOUNDS = {
         "G4 pairs": "all ordered pairs of the 14 kinds (canonical layout), message/dummy x separators {next line, same line, blank line} x comment {none, before 1st, before 2nd}",
         "G7 spaced call": "every layout x {_, gettext, ngettext} x name and parenthesis separated by {space, TAB, backslash-newline}, the call alone in its fragment x LF/CRLF x {none, imm}; Babel in 4 encodings, Lingua in utf-8",
         "G8 interleaved extractions": "two extractions in progress at once, their generators advanced in strict alternation, either one first: template A = every layout that is right alone (49) x forms {u, 2, 2l}, template B = each of the 14 kinds x forms {u, 2l}; Babel and Lingua",
+        "G9 filter-list layouts": "${expr | filters}: 0/1 line breaks before the '|' x 0..2 after it x 0..2 inside the list x 0..2 between the list and '}' (and the same with a builtin filter and the call in the expression); forms {u, 2, 2l}; with and without a second call in the expression part; LF/CRLF; {none, imm}",
+        "G10 option sequences": "every ordered pair of 8 Babel configurations (no option, input_encoding x3, encoding x3, magic comment; same keywords and tags) and of Lingua's 4 file encodings, each pair in a fresh interpreter; plus any worker violation is re-checked in a fresh interpreter alone / after one recent case",
         "G6 stale comment": "tagged comment directly before X in {message-free construct of each of the 14 kinds, the 4 control-line kinds left open, a text line, a blank line} x 0/1/3 text lines x {untagged comment, tagged comment, no comment} directly before a message construct of each of the 14 kinds x LF/CRLF",
     },
     "thorough": {
@@ -956,10 +967,46 @@ def gen_unit(unit, tier, al):
                                     "tags": ca["tags"],
                                     "desc": {"interleave": [ca["desc"], cb["desc"]], "first": first},
                                 }
+    elif g == "G9":
+        _, fi = unit
+        layout = FILT_LAYOUTS[fi]
+        enc = "utf-8"
+        for form in ("u", "2", "2l"):
+            for wec in (False, True):
+                if wec and layout[1].endswith("h"):
+                    continue
+                cons = filt_construct(al, enc, layout, form, wec)
+                for eol in ("lf", "crlf"):
+                    for arr in ("none", "imm"):
+                        for P in ((1,) if tier == "quick" else (0, 1, 3)):
+                            doc = single_doc(al, enc, cons, P, eol, arr, "text")
+                            doc["desc"]["expr_call"] = wec
+                            yield from ext_cases(doc, al, enc)
     elif g == "V":
         return
     else:
         raise ValueError(unit)
+
+
+# expressions with a filter list: every combination of line breaks before the '|', after it, inside the list and
+# between the list and the closing brace
+FILT_LAYOUTS = [("filtx", "b%da%dt%d" % (b, a, t), j) for b in (0, 1) for a in (0, 1, 2) for t in (0, 1, 2) for j in (0, 1, 2)] + [
+    ("filtx", "b%da%dt%dh" % (b, a, t), j) for b in (0, 1) for a in (0, 1) for t in (0, 1, 2) for j in (0, 1, 2)
+]
+
+
+def filt_construct(al, enc, layout, form, with_expr_call):
+    """a filtx construct; optionally a second call in the expression part (left of the '|')"""
+    if not with_expr_call or layout[1].endswith("h"):
+        return construct(al, enc, layout, form)
+    cons = construct(al, enc, layout, form, n="@")
+    eparts, ecalls = make_parts(al, enc, "g", "e")
+    for k in ecalls:
+        k.pop("part")
+        k.update(kind="filtx", style=layout[1] + "+expr", lead=0, tagoff=0, filtoff=0)
+    cons["main"] = cons["main"].replace("EXPR@", eparts[0]).replace(al.f + "@(", al.f + "(")
+    cons["calls"] = ecalls + cons["calls"]
+    return cons
 
 
 # interleaved extractions: layouts whose line is right when extracted alone (the open known findings are left out)
@@ -1005,7 +1052,90 @@ def units(tier):
             us.append(("G7", li, form))
     for ai in range(len(INTER_A)):
         us.append(("G8", ai))
+    for fi in range(len(FILT_LAYOUTS)):
+        us.append(("G9", fi))
+    seqs = option_sequences()
+    for i in range(0, len(seqs), 6):
+        us.append(("G10", i, min(i + 6, len(seqs))))
     return us
+
+
+# --------------------------------------------------------------------------
+# G10: sequences of extractions with different options in one fresh interpreter (process-wide state)
+
+SEQ_BABEL = {
+    "utf-8/no-option": ("utf-8", "bytes", {}),
+    "utf-8/input_encoding": ("utf-8", "bytes", {"input_encoding": "utf-8"}),
+    "cp1251/input_encoding": ("cp1251", "bytes", {"input_encoding": "cp1251"}),
+    "latin-1/input_encoding": ("latin-1", "bytes", {"input_encoding": "latin-1"}),
+    "utf-8/encoding": ("utf-8", "bytes", {"encoding": "utf-8"}),
+    "cp1251/encoding": ("cp1251", "bytes", {"encoding": "cp1251"}),
+    "latin-1/encoding": ("latin-1", "bytes", {"encoding": "latin-1"}),
+    "cp1251/magic-comment": ("cp1251", "magic", {}),
+}
+
+
+def option_sequences():
+    """ordered pairs (first, second) of distinct configurations; same keywords and comment tags throughout"""
+    seqs = [("babel", a, b) for a in SEQ_BABEL for b in SEQ_BABEL if a != b]
+    seqs += [("lingua", a + "/file", b + "/file") for a in LINGUA_FILE for b in LINGUA_FILE if a != b]
+    seqs += [("lingua", a + "/file", b + "/fileobj") for a in ("cp1251", "latin-1") for b in ("utf-8",)]
+    return seqs
+
+
+def seq_case(al, ext, cfgname, base):
+    """a two-construct template (an expression and a two-line <% %> block) under one configuration"""
+    tags = [al.tag, al.tag2]
+    if ext == "babel":
+        enc, transport, options = SEQ_BABEL[cfgname]
+        cfg = {"name": cfgname, "enc": enc, "transport": "bytes", "options": options}
+    else:
+        enc, transport = cfgname.split("/")
+        cfg = {"name": cfgname, "enc": enc, "transport": transport}
+        if transport == "file":
+            cfg["enc_option"] = enc
+    A = construct(al, enc, ("expr", "code", 0), "u", base=base + "a", n="1")
+    B = construct(al, enc, ("code", "lead", 1), "2l", base=base + "b", n="2")
+    doc = multi_doc(al, enc, [A, B], "nl", 0, "lf")
+    if ext == "babel" and transport == "magic":
+        doc["src"] = "## -*- coding: %s -*-\n" % enc + doc["src"]
+        doc["expect"] = [dict(e, line=e["line"] + 1) for e in doc["expect"]]
+    doc["desc"] = dict(doc["desc"], sequence=True)
+    return dict(doc, ext=ext, tags=tags, cfg=cfg)
+
+
+def run_sequences(unit, al, st):
+    seqs = option_sequences()[unit[1] : unit[2]]
+    for ext, first, second in seqs:
+        c1 = seq_case(al, ext, first, "p")
+        c2 = seq_case(al, ext, second, "q")
+        ok = core.isolated_replay(__name__, [c1, c2])
+        st.evaluations += 2
+        st.transitions += 2
+        st.traces += 1
+        st.states += 1
+        st.nontrivial += 1
+        st.oracles[ext + ":sequence"] += 1
+        g = st.extra.setdefault("cases_per_group", {})
+        g["G10:" + ext] = g.get("G10:" + ext, 0) + 1
+        if ok is None:
+            st.extra.setdefault("harness_errors", []).append("sequence replay gave no verdict: %s %s -> %s" % (ext, first, second))
+            continue
+        st.outcomes[(ext, "sequence", "ok" if ok else "viol")] += 1
+        if ok is False:
+            alone = core.isolated_replay(__name__, [c2])
+            if alone is False:
+                # fails without any history: the ordinary grid reports it with its own signature
+                case = dict(c2, prelude=[])
+                sig = "%s:sequence:%s fails alone" % (ext, second)
+            else:
+                case = dict(c2, prelude=[c1])
+                sig = "%s:order-dependent:%s after an earlier extraction with %s" % (ext, option_class(second), option_class(first))
+            st.violation(sig, case, "an extraction yields what it yields alone, whatever was extracted before in the process", expected="as alone", observed="differs after " + first)
+
+
+def option_class(cfgname):
+    return cfgname.split("/", 1)[1]
 
 
 def plan(tier, seed):
@@ -1024,7 +1154,7 @@ def is_nontrivial(case):
     d = case["desc"]
     if not case["expect"]:
         return False
-    if "multi" in d or "stale" in d or "interleave" in d:
+    if "multi" in d or "stale" in d or "interleave" in d or "sequence" in d:
         return True
     return (
         d["arr"] != "none"
@@ -1048,6 +1178,9 @@ def run_job(job):
         if unit[0] == "V":
             validity(al, st)
             continue
+        if unit[0] == "G10":
+            run_sequences(unit, al, st)
+            continue
         for case in gen_unit(unit, tier, al):
             key = (case["ext"], case["cfg"]["name"], case["src"])
             if key in seen:
@@ -1060,8 +1193,23 @@ def run_job(job):
     return st
 
 
+MAX_ISOLATED = 4  # fresh-interpreter verifications per job (each costs an interpreter start)
+_recent = collections.OrderedDict()  # (extractor, configuration) -> the latest case this worker ran with it
+_known_cache = []
+
+
+def _known():
+    if not _known_cache:
+        _known_cache.append(core.load_known(PROPERTY))
+    return _known_cache[0]
+
+
 def check(case, st, scratch, group):
     obs = execute(case, scratch)
+    if "docs" not in case:
+        k = (case["ext"], case["cfg"]["name"])
+        _recent.pop(k, None)
+        _recent[k] = case
     if "docs" in case:
         st.evaluations += 2
         st.transitions += sum(1 if isinstance(o, dict) else max(1, len(o)) for o in obs)
@@ -1092,11 +1240,40 @@ def check(case, st, scratch, group):
             st.extra.setdefault("harness_errors", []).append("non-deterministic extraction: %r vs %r on %r" % (obs, obs2, case["src"]))
             return
         seen_sig = set()
+        prelude = "?"
         for sig, oracle, expected, observed in viol:
             if sig in seen_sig:
                 continue
             seen_sig.add(sig)
-            st.violation(sig, case, oracle, expected=expected, observed={"this": observed, "all": obs})
+            if st.sigcount[sig] >= 1 or core.match_known(_known(), sig) is not None:
+                # counted; the written-out, verified witness of this signature is the first one (known findings
+                # are not replayed by core.finish)
+                if core.match_known(_known(), sig) is not None and st.sigcount[sig] < 3:
+                    st.violation(sig, case, oracle, expected=expected, observed={"this": observed, "all": obs})
+                else:
+                    st.sigcount[sig] += 1
+                continue
+            # process-wide state: does the case fail in a fresh interpreter, alone or after one recent case?
+            if prelude == "?":
+                budget = st.extra.get("isolated_checks", 0)
+                if budget >= MAX_ISOLATED:
+                    prelude = "skip"
+                else:
+                    st.extra["isolated_checks"] = budget + 1
+                    prelude = core.find_prelude(__name__, case, list(_recent.values()), max_tries=24)
+            if prelude == "skip":
+                st.sigcount[sig] += 1
+                continue
+            if prelude is None:
+                st.extra.setdefault("harness_errors", []).append(
+                    "violation in the worker that neither reproduces alone nor after one of the recent cases: %s on %r" % (sig, case["src"])
+                )
+                continue
+            vcase = dict(case, prelude=prelude)
+            if prelude:
+                sig = "%s:order-dependent:%s after an earlier extraction with %s (%s)" % (
+                    case["ext"], option_class(case["cfg"]["name"]), option_class(prelude[0]["cfg"]["name"]), sig.split(":", 1)[1])
+            st.violation(sig, vcase, oracle, expected=expected, observed={"this": observed, "all": obs})
     if st.evaluations % 20011 == 1:
         st.sample({"ext": ext, "cfg": case["cfg"]["name"], "src": case["src"], "expect": [[e["line"], e["func"], e["msgs"], e["req"]] for e in case["expect"]], "observed": obs})
 
@@ -1133,6 +1310,17 @@ def validity(al, st):
                 st.extra.setdefault("harness_errors", []).append(
                     "planter produced a template Mako rejects: %s: %s\n%s" % (type(e).__name__, str(e)[:200], doc["src"])
                 )
+    for layout in FILT_LAYOUTS:
+        for wec in (False, True):
+            cons = filt_construct(al, "utf-8", layout, "2l", wec)
+            doc = single_doc(al, "utf-8", cons, 1, "lf", "imm", "text")
+            try:
+                Template(doc["src"], imports=["_ = gettext = lambda s: s", "ngettext = lambda s, p, n: s", "n = x = 1"])
+                n += 1
+            except BaseException as e:  # noqa
+                st.extra.setdefault("harness_errors", []).append(
+                    "planter produced a template Mako rejects: %s: %s\n%s" % (type(e).__name__, str(e)[:200], doc["src"])
+                )
     for xname in STALE_X:
         for k in KINDS:
             if not stale_allowed(xname, CANON[k]):
@@ -1151,6 +1339,10 @@ def validity(al, st):
 
 def replay(case):
     case = core.unjson(case)
+    if case.get("prelude"):
+        rest = {k: v for k, v in case.items() if k != "prelude"}
+        ok = core.isolated_replay(__name__, list(case["prelude"]) + [rest])
+        return ok, "fresh interpreter, %d earlier case(s) first: %s" % (len(case["prelude"]), {False: "reproduced", True: "holds", None: "no verdict"}[ok])
     obs = execute(case)
     viol = judge(case, obs)
     if viol:
